@@ -11,6 +11,8 @@ ENGINES = [
          kind_free_text="real hub.Hub inside a synctest bubble, harness plays the SHIP connections"),
     dict(name="certid", path="harness/certid", serves_properties=["C02"],
          kind_free_text="adversarial TLS/websocket client and server with generated certificates against a real started hub"),
+    dict(name="zcnet", path="harness/zcnet", serves_properties=["C16", "C17", "C20"],
+         kind_free_text="2-4 real MdnsManagers with the real zeroconf provider over real multicast sockets in one process; real time; skipped where multicast does not work"),
     dict(name="mdnssim", path="harness/mdnssim", serves_properties=["C08", "C16", "C17", "C19", "C20"],
          kind_free_text="real MdnsManager with fake provider / real AvahiProvider with a fake Avahi daemon / real hub as report sink, synctest bubble"),
 ]
